@@ -394,6 +394,9 @@ type RecvMsg struct {
 	Key      string
 	Attempt  int
 	PubTime  time.Time // logical
+	// Phase: for a streaming session, the number of follow-up requests that had
+	// gone in when the stream sent this message
+	Phase int
 }
 
 type Row struct {
@@ -491,6 +494,8 @@ func (m *Model) Apply(c Call, o Obs) []Hit {
 		hits = m.applyJob(c, o)
 	case "reconfig":
 		hits = m.applyReconfig(c, o)
+	case "stream":
+		hits = m.applyStream(c, o)
 	case "tick", "acknack", "updateSub", "modifyPush", "updateTopic", "updateSubDL", "streamModack":
 		// nothing (only used by the fault-enumeration check, which does not consult the model's verdicts)
 	case "getTopic", "getSub", "getSnap", "listTopics", "listSubs", "listSnaps", "listTopicSubs", "delSnap":
@@ -1765,4 +1770,129 @@ func (m *Model) applyReconfig(c Call, o Obs) []Hit {
 		panic("unknown reconfig " + c.Op.Tgt)
 	}
 	return nil
+}
+
+// applyStream: a StreamingPull session = the settle requests it carried
+// (acks / zero or positive deadlines for ids the client held) followed by what
+// a pull with a large limit would deliver.
+func (m *Model) applyStream(c Call, o Obs) []Hit {
+	if o.Err != "" {
+		return []Hit{hit("stream-failed", append(pC01, "C03", "C11"), "StreamingPull(%s, %s) ended with %s", c.Op.Sub, c.Op.Tgt, o.Err)}
+	}
+	s := m.liveSub(c.Op.Sub)
+	var hits []Hit
+	settle := Call{Op: Op{Sub: c.Op.Sub}, AckIDs: c.AckIDs}
+	so := o
+	so.Msgs = nil
+	doSettle := func() {
+		switch c.Op.Tgt {
+		case "open-ack", "later-ack":
+			settle.Op.K = "ack"
+			hits = append(hits, m.applyAck(settle, so)...)
+		case "open-nack", "later-nack":
+			settle.Op.K = "modack"
+			settle.Op.D = 0
+			hits = append(hits, m.applyModack(settle, so)...)
+		case "later-extend":
+			settle.Op.K = "modack"
+			settle.Op.D = 60 * time.Second
+			hits = append(hits, m.applyModack(settle, so)...)
+		}
+	}
+	doPull := func(msgs []RecvMsg) {
+		po := o
+		po.Msgs = msgs
+		ph := m.applyPull(Call{Op: Op{K: "pull", Sub: c.Op.Sub, Max: 1000}}, po)
+		for i := range ph {
+			if ph[i].Rule == "redeliver-acked" || ph[i].Rule == "row-resurrected" {
+				ph[i].Props = append(ph[i].Props, "C03")
+			}
+		}
+		hits = append(hits, ph...)
+	}
+	switch c.Op.Tgt {
+	case "plain":
+		doPull(o.Msgs)
+	case "later-ack", "later-nack", "later-extend":
+		// the stream first serves what is due at its opening; the follow-up request
+		// (carrying ids chosen before the session) is processed after that; what the
+		// stream sends from then on is judged against the settled state
+		var p0, p1 []RecvMsg
+		for _, rm := range o.Msgs {
+			if rm.Phase == 0 {
+				p0 = append(p0, rm)
+			} else {
+				p1 = append(p1, rm)
+			}
+		}
+		doPull(p0)
+		doSettle()
+		doPull(p1)
+	case "open-ack", "open-nack":
+		// ids carried by the OPENING request are settled by the stream's reader
+		// while its sender already fetches: for an id whose delivery is deliverable
+		// at that instant the two orders are both legal, so that delivery's part
+		// in this session is left open (it may be sent before the settle, after
+		// it, or both for a nack); ids that are not deliverable (leased, settled,
+		// unknown) have one legal outcome only
+		var racy []*Del
+		if s != nil {
+			call := o.Call()
+			for i, d := range s.Dels {
+				if d.State != Outstanding || d.AckID == "" {
+					continue
+				}
+				target := false
+				for _, id := range c.AckIDs {
+					if id == d.AckID {
+						target = true
+					}
+				}
+				if st, _ := m.status(s, i, call); target && st != No {
+					racy = append(racy, d)
+					d.State = Unknown
+				}
+			}
+		}
+		msgs := o.Msgs
+		if len(racy) > 0 && c.Op.Tgt == "open-nack" {
+			// keep only the last sending of a racy delivery
+			last := map[string]int{}
+			for i, rm := range msgs {
+				last[rm.AckID] = i
+			}
+			var kept []RecvMsg
+			for i, rm := range msgs {
+				isRacy := false
+				for _, d := range racy {
+					if d.AckID == rm.AckID {
+						isRacy = true
+					}
+				}
+				if isRacy && last[rm.AckID] != i {
+					continue
+				}
+				kept = append(kept, rm)
+			}
+			msgs = kept
+		}
+		if c.Op.Tgt == "open-ack" {
+			doPull(msgs)
+			for _, d := range racy {
+				if d.State == Unknown {
+					d.State = Outstanding
+				}
+			}
+			doSettle()
+		} else {
+			doSettle()
+			doPull(msgs)
+			for _, d := range racy {
+				if d.State == Unknown && d.Leased {
+					d.State = Outstanding
+				}
+			}
+		}
+	}
+	return hits
 }
